@@ -35,7 +35,8 @@ type TableMeta struct {
 	Cols    []ColMeta  `json:"cols"`    // the columns read and written by the CRUD code, in field order, without the ID
 	Uniques [][]string `json:"uniques"` // field names
 	Keys    [][]string `json:"keys"`
-	UniqFK  []string   `json:"uniqfk"` // foreign key fields carrying a UNIQUE constraint
+	UniqFK  []string   `json:"uniqfk"`  // foreign key fields carrying a UNIQUE constraint
+	Queries [][]string `json:"queries"` // custom queries: name, set field, where field
 }
 
 type Table struct {
@@ -481,6 +482,11 @@ func (s *session) step(enums map[string][]string, force *TableMeta) {
 	if m.IDField == "" {
 		ops = append(ops, "Delete", "Delete", "Delete", "InsertMany") // rarer otherwise: link tables have many by-key helpers
 	}
+	for _, k := range ops {
+		if strings.HasPrefix(k, "Query/") || strings.HasPrefix(k, "SelectByUnique/") || strings.HasPrefix(k, "DeleteByKeys/") {
+			ops = append(ops, k, k) // the helpers derived from comment directives exist in few tables
+		}
+	}
 	// inserts are more frequent
 	op := ops[s.rng.Intn(len(ops))]
 	if s.rng.Intn(3) == 0 || force != nil {
@@ -648,6 +654,16 @@ func (s *session) step(enums map[string][]string, force *TableMeta) {
 		if ev.Err == "" {
 			ev.Out = s.collect(m, res[0])
 		}
+	case "Query": // custom query  UPDATE t SET <set> = $v$ WHERE <where> = $w$ : arg = Name/SetField/WhereField
+		parts := strings.Split(arg, "/")
+		ev.Cols = []string{parts[1], parts[2]}
+		fields = []string{parts[1]}
+		setArgs, setVals := colArgs()
+		fields = []string{parts[2]}
+		whereArgs, whereVals := colArgs()
+		ev.Vals = []string{setVals[0], whereVals[0]}
+		res := s.call(fn, s.db, setArgs[0], whereArgs[0])
+		ev.Err, ev.Msg = classify(errOf(res[0]))
 	case "Delete": // link tables: by the foreign keys of the item
 		item := s.newItem(m, enums)
 		if all := s.call(t.Funcs["SelectAll"], s.db); errOf(all[1]) == nil && all[0].Len() > 0 && s.rng.Intn(4) != 0 {
